@@ -2,6 +2,7 @@ package main
 
 import (
 	"bytes"
+	"io"
 	"os"
 	"runtime"
 	"strconv"
@@ -206,6 +207,30 @@ func runOverlap(tier string, seed int64) {
 				}
 			}(gi)
 		}
+		// meanwhile other callers import entropies of their own (NewMnemonicByEntropy has nothing to do with the source)
+		type imp struct {
+			ent  []byte
+			lang int64
+			out  string
+			err  error
+		}
+		imps := make([][]imp, G/2)
+		for gi := 0; gi < G/2; gi++ {
+			wg.Add(1)
+			go func(gi int) {
+				defer wg.Done()
+				rr := newRng(seed, "hammer-import/"+strconv.Itoa(round)+"/"+strconv.Itoa(gi))
+				<-startCh
+				for i := 0; i < K; i++ {
+					x := imp{ent: rr.bytes(sizes[rr.intn(5)]), lang: int64(rr.intn(10))}
+					func() {
+						defer func() { recover() }()
+						x.out, x.err = bip39.NewMnemonicByEntropy(x.ent, bip39.Language(x.lang))
+					}()
+					imps[gi] = append(imps[gi], x)
+				}
+			}(gi)
+		}
 		close(startCh)
 		wg.Wait()
 		for gi := range res {
@@ -213,6 +238,15 @@ func runOverlap(tier string, seed int64) {
 				emitOv(r, "hammer", gi)
 			}
 		}
+		for gi := range imps {
+			for _, x := range imps[gi] {
+				emit(Event{"op": "ByEntropy", "ent": ints(x.ent), "ent_len": len(x.ent), "ent_nil": false, "lang": langField(x.lang), "out": units(x.out),
+					"err": errRec(x.err), "ent_same": true, "conc": true, "cls": "hammer-import", "g": gi, "panicked": false, "timeout": false})
+			}
+		}
+		// the source the harness installed is still the installed one
+		prev := bip39.VerifSwapSource(g)
+		emit(Event{"op": "SourceCheck", "same": prev == io.Reader(g)})
 	}
 	swapSource(osRandReader(), "os")
 	if serialisedRuns > 0 {
